@@ -365,6 +365,7 @@ func registerIntrinsics(ex *Exec) {
 	registerNative2(ex)
 	registerNative3(ex)
 	registerSync(ex)
+	registerFmt(ex)
 }
 
 // nativeError builds an error value (*errors.errorString) for a message.
